@@ -805,6 +805,81 @@ def run_alias(desc):
                           f"a {ks[y][0]} with equal fields, {wrap}) get the same key", **w)
         if not isinstance(pay, tuple) and not keys_equal(ks[0][1], k_again)[0]:
             v.bad("unequal-keys-for-equal/dataclass", "two equal dataclass instances built the same way get different keys", **w)
+    # (4) DataFrames with REPEATED column labels: every column counts, not only the last one of a label
+    import pandas as pd
+    for _ in range(desc["n"] // 2):
+        ncol = rng.randint(2, 4)
+        nrow = rng.randint(1, 3)
+        labels = [rng.choice(["x", "y"]) for _ in range(ncol)]
+        if len(set(labels)) == ncol:
+            labels[-1] = labels[0]
+        cells = [[rng.randint(0, 5) for _ in range(ncol)] for _ in range(nrow)]
+        dup_not_last = [j for j in range(ncol) if labels[j] in labels[j + 1:]]
+        j = rng.choice(dup_not_last)
+        other = [row[:] for row in cells]
+        other[rng.randrange(nrow)][j] += 7
+        wrap = rng.choice(["plain", "list", "dict"])
+        hold = lambda x, wrap=wrap: {"plain": x, "list": [x, 1], "dict": {"df": x}}[wrap]  # noqa: E731
+        w = dict(columns=labels, cells=cells, changed_column_position=j, held=wrap)
+        try:
+            with warnings.catch_warnings():
+                warnings.simplefilter("ignore")
+                ka = to_hashable(hold(pd.DataFrame(cells, columns=labels)))
+                kb = to_hashable(hold(pd.DataFrame([row[:] for row in cells], columns=list(labels))))
+                kc = to_hashable(hold(pd.DataFrame(other, columns=labels)))
+                hash(ka), hash(kc)
+        except Exception as e:  # noqa: BLE001
+            v.bad(exc_sig(e, "alias:frame-with-repeated-labels"), f"to_hashable of a DataFrame with repeated column labels raised {exc_msg(e)}", **w)
+            continue
+        v.count("frames_with_repeated_column_labels")
+        if not keys_equal(ka, kb)[0]:
+            v.bad("unequal-keys-for-equal/frame-with-repeated-labels", "two equal DataFrames with repeated column labels get different keys", **w)
+        if keys_equal(ka, kc)[0]:
+            v.bad("equal-keys-for-unequal/frame-with-repeated-labels", f"DataFrames that differ in column position {j} (a label that occurs again "
+                  "further right) get the same key", **w)
+    # (3) a memoized function that changes its (mutable) argument in place: the result belongs to the arguments AS GIVEN
+    from pipefunc.cache import HybridCache, LRUCache, SimpleCache
+    for _ in range(desc["n"] // 2):
+        cache = rng.choice([None, SimpleCache(), LRUCache(max_size=50, shared=False), HybridCache(max_size=50, shared=False)])
+        kind = rng.choice(["list-pop", "dict-pop", "list-append"])
+        n0 = rng.randint(3, 6)
+        base = [rng.randint(0, 9) * 10 + j for j in range(n0)]
+        count = []
+
+        def mutating(x, count=count, kind=kind):
+            count.append(1)
+            if kind == "list-pop":
+                return ("first", x.pop(0))
+            if kind == "dict-pop":
+                k = sorted(x)[0]
+                return ("first", k, x.pop(k))
+            x.append(len(x))
+            return ("len-before", len(x) - 1)
+        mem = memoize(cache=cache)(mutating) if cache is not None else memoize()(mutating)
+
+        def make(vals):
+            return {f"k{j}": val for j, val in enumerate(vals)} if kind == "dict-pop" else list(vals)
+        after = base[1:] if kind != "list-append" else base + [len(base)]
+        w = dict(function=kind, cache=type(cache).__name__ if cache is not None else "default", first_argument=repr(make(base)))
+        try:
+            with warnings.catch_warnings():
+                warnings.simplefilter("ignore")
+                r1 = mem(make(base))
+                c1 = len(count)
+                r2 = mem(make(after) if kind != "dict-pop" else {f"k{j + 1}": val for j, val in enumerate(after)})   # equals what the first argument BECAME
+                c2 = len(count)
+                r3 = mem(make(base))     # equals what the first argument WAS
+                c3 = len(count)
+        except Exception as e:  # noqa: BLE001
+            v.bad(exc_sig(e, "alias:mutating-function"), f"memoized mutating function raised {exc_msg(e)}", **w)
+            continue
+        v.count("memoized_functions_that_mutate_their_argument")
+        if c2 == c1 or r2 == r1:
+            v.bad("stale-hit/argument-equal-to-what-an-earlier-argument-became", f"a call whose argument equals what an earlier call's argument became "
+                  f"after that call mutated it was answered from the cache ({r2!r})", **w)
+        if c3 != c2 or r3 != r1:
+            v.bad("miss-for-equal/arguments-as-given-to-a-mutating-function", f"a repeated call with arguments equal to the first call's (as given) "
+                  f"was {'re-executed' if c3 != c2 else 'answered with ' + repr(r3)} (first result {r1!r})", **w)
     return v.result(keys=keys, evaluations=2 * desc["n"], sample={"kind": "alias"} if desc["batch"] == 0 else None)
 
 
@@ -836,6 +911,8 @@ def finalize(agg, tier, seed):
 
     need("readonly_views_rekeyed_after_base_write", 200 if q else 1200)
     need("dataclass_look_alike_triples", 200 if q else 1200)
+    need("memoized_functions_that_mutate_their_argument", 100 if q else 600)
+    need("frames_with_repeated_column_labels", 100 if q else 600)
     need("pairs_eq", 15000 if q else 300000)
     need("pairs_ne", 20000 if q else 450000)
     need("keys_hashed", 6000 if q else 100000)
